@@ -30,7 +30,13 @@ def gen_case(rng, cfg, idx):
     r = rng.random()
     dtype = "float64" if r < 0.8 else ("float32" if r < 0.95 else "float16")
     for _ in range(20):
-        c = gen_dag(rng, nodes=cfg["nodes"], seed_kinds=False, dtype=dtype, node_gens=B.NODE_GENS_WITH_LAYERS if dtype == "float64" else None)
+        if idx % 32 == 16:
+            # the gru layer (numba JIT: these indices all land on one shard), incl. mixed-precision parameters
+            from mgverif.props import C02
+            c = C02.gen_single(rng, "gru")
+            dtype = "float64"
+        else:
+            c = gen_dag(rng, nodes=cfg["nodes"], seed_kinds=False, dtype=dtype, node_gens=B.NODE_GENS_WITH_LAYERS if dtype == "float64" else None)
         if c is None:
             continue
         prog = c["prog"][:-1]
